@@ -72,7 +72,7 @@ class CheckHooks(Hooks):
         return head
 
     def on_loop(self, eng, fr, node, syms, entered, back, exits, breaks):
-        if fr.func is self.loop_func and self.loop is None:
+        if fr.func is self.loop_func and self.loop is None and any(node is n for n in _atom_loops(self.loop_func)):
             self.loop = dict(node=node, syms=syms, entered=entered, back=back, exits=exits, breaks=breaks)
 
     def on_call(self, eng, fr, node, callee, args, kwargs, st):
@@ -83,19 +83,26 @@ class CheckHooks(Hooks):
         return None
 
 
-def _has_for(f):
-    return any(isinstance(n, ast.For) for n in own_nodes(f.node))
+def _atom_loops(f):
+    """for-loops of f whose body compares a bond count with a capacity (the comparator's ingredients)"""
+    out = []
+    for n in own_nodes(f.node):
+        if isinstance(n, ast.For):
+            src = " ".join(unparse(x) for x in n.body)
+            if "bonding_capacity" in src or "get_bond_count" in src or "get_bonding_capacity" in src:
+                out.append(n)
+    return out
 
 
 def find_loop_func(ctx, chk):
     """The function holding the atom loop: the strict check itself, or a collector it calls directly
     (``violations = _collect(mol)``) whose returned container decides the raise."""
-    if _has_for(chk):
+    if _atom_loops(chk):
         return chk
     cands = []
     for s in ctx.cg.sites(chk):
         for g in s.callees:
-            if g.cls is None and _has_for(g) and g not in cands and g.module is chk.module:
+            if g.cls is None and _atom_loops(g) and g not in cands and g.module is chk.module:
                 cands.append(g)
     if len(cands) == 1:
         return cands[0]
